@@ -2,7 +2,8 @@
 Props.C01 — "Every reported execution path is a real EVM behaviour" — for the core machine (Model.Sevm, stage 1 of
 DESIGN §"Shared by C01, C02, C09, C10": stack, word instructions, PUSH/DUP/SWAP, PC, JUMP/JUMPI, JUMPDEST, calldata and
 transaction-environment reads, memory (MLOAD/MSTORE/MSTORE8 at concrete offsets — a flat array of byte terms, which
-halmos' ByteVec refines: Props.C07), STOP/INVALID, RETURN/REVERT with data; every other opcode ends the path as
+halmos' ByteVec refines: Props.C07), CALLDATACOPY / CODECOPY with concrete operands, STOP/INVALID, RETURN/REVERT with
+data; every other opcode ends the path as
 *stuck*, which is an error report, never an outcome).
 
 All theorems hold for EVERY program (`code : List Nat`, any length), EVERY fuel / number of steps, EVERY engine
@@ -47,12 +48,12 @@ theorem jumpdest_byte {code : List Nat} {d : Nat} (h : (Evm.validJumpdests code)
 theorem step_sound {I : Interp} {env : Env} {code : List Nat} {p : Evm.Params} {w : Evm.World} {s : Simp}
     {o : Oracle} {cfg : Cfg} {st : SState} {f : Evm.Frame} (hs : SimpSound s) (hI : I.Std)
     (hR : R I env code p st f) (hsat : Sat I st.path) (hl : f.stack.length ≤ 1024)
-    (hmem : cfg.maxMem + 32 ≤ p.memLimit) :
+    (hmem : cfg.maxMem + 32 ≤ p.memLimit) (hcode : ∀ b ∈ code, b < 256) :
     (∀ st' ∈ (step s o cfg env code st).next, Sat I st'.path →
         ∃ f', CReach p w f f' ∧ R I env code p st' f') ∧
     (∀ e ∈ (step s o cfg env code st).ends, e.tag = .normal → ∀ h, e.out = .halt h →
         Evm.step p w f = .halt w (haltWith h (e.data.map (·.eval I)))) :=
-  Lemmas.Sevm.step_sound hs hI hR hsat hl hmem
+  Lemmas.Sevm.step_sound hs hI hR hsat hl hmem hcode
 
 /-! ### the property -/
 
@@ -63,13 +64,13 @@ theorem step_sound {I : Interp} {env : Env} {code : List Nat} {p : Evm.Params} {
     stack overflows. `hmem`: the reference's memory limit (a modelling parameter on both sides) is at least as
     permissive as halmos' `MAX_MEMORY_SIZE` for a 32-byte access; end states raised by halmos' limit checks are tagged. -/
 theorem sound {s : Simp} (hs : SimpSound s) (o : Oracle) (cfg : Cfg) (env : Env) (code : List Nat) (fuel : Nat)
-    (p : Evm.Params) (w : Evm.World) (hmem : cfg.maxMem + 32 ≤ p.memLimit) (e : EndState)
-    (he : e ∈ (run s o cfg env code fuel).ends)
+    (p : Evm.Params) (w : Evm.World) (hmem : cfg.maxMem + 32 ≤ p.memLimit) (hcode : ∀ b ∈ code, b < 256)
+    (e : EndState) (he : e ∈ (run s o cfg env code fuel).ends)
     (htag : e.tag = .normal) (h : Evm.Halt) (hout : e.out = .halt h) (I : Interp) (hI : I.Std) (f0 : Evm.Frame)
     (hR0 : R I env code p initState f0) (hsat : Sat I e.st.path) :
     (∃ f, CReach p w f0 f ∧ Evm.step p w f = .halt w (haltWith h (e.data.map (·.eval I)))) ∨
     (∃ f, CReach p w f0 f ∧ f.stack.length > 1024) := by
-  have hgood := explore_sound (o := o) (cfg := cfg) (env := env) (code := code) (p := p) (w := w) hs hmem fuel 0
+  have hgood := explore_sound (o := o) (cfg := cfg) (env := env) (code := code) (p := p) (w := w) hs hmem hcode fuel 0
     [initState] {} (by
       intro st hm
       rw [List.mem_singleton] at hm
@@ -80,13 +81,13 @@ theorem sound {s : Simp} (hs : SimpSound s) (o : Oracle) (cfg : Cfg) (env : Env)
 /-- **C01.sound, as a terminating run.** The reported outcome is the result of `Evm.exec` on the whole program
     (for some amount of fuel — the statement bounds nothing), unless the concrete run dies of stack overflow. -/
 theorem sound_exec {s : Simp} (hs : SimpSound s) (o : Oracle) (cfg : Cfg) (env : Env) (code : List Nat) (fuel : Nat)
-    (p : Evm.Params) (w : Evm.World) (hmem : cfg.maxMem + 32 ≤ p.memLimit) (e : EndState)
-    (he : e ∈ (run s o cfg env code fuel).ends)
+    (p : Evm.Params) (w : Evm.World) (hmem : cfg.maxMem + 32 ≤ p.memLimit) (hcode : ∀ b ∈ code, b < 256)
+    (e : EndState) (he : e ∈ (run s o cfg env code fuel).ends)
     (htag : e.tag = .normal) (h : Evm.Halt) (hout : e.out = .halt h) (I : Interp) (hI : I.Std) (f0 : Evm.Frame)
     (hR0 : R I env code p initState f0) (hsat : Sat I e.st.path) :
     (∃ n, Evm.exec p n w f0 = some (w, haltWith h (e.data.map (·.eval I)))) ∨
     (∃ n, Evm.exec p n w f0 = some (w, .stackOverflow)) := by
-  rcases sound hs o cfg env code fuel p w hmem e he htag h hout I hI f0 hR0 hsat with ⟨f, hr, hstep⟩ | ⟨f, hr, hov⟩
+  rcases sound hs o cfg env code fuel p w hmem hcode e he htag h hout I hI f0 hR0 hsat with ⟨f, hr, hstep⟩ | ⟨f, hr, hov⟩
   · exact Or.inl (exec_of_reach hr hstep)
   · exact Or.inr (exec_of_reach hr (evm_overflow hov))
 
@@ -108,6 +109,7 @@ def exEnv : Env where
   callvalue := .var "msg_value" 256
   address := .lit 160 0x1000
   cd := fun off => if off = 4 then .var "x" 256 else .lit 256 (Evm.bytesToNat (Evm.readBytes exCalldata off 32))
+  cdByte := fun i => .lit 8 ((exCalldata[i]?).getD 0)   -- the byte view, fully concrete here
   cdSize := 36
 
 /-- the valuation `x ↦ 42`, `msg_sender ↦ 0xabc`, everything else 0; arithmetic abstractions standard -/
@@ -137,7 +139,7 @@ example : exRes.ends.map (fun e => (e.st.pc, e.out, e.tag, e.st.path)) =
 
 /-- the simulation relation holds between the initial symbolic state and the concrete initial frame -/
 theorem exR : R exI exEnv exCode exP initState exF0 := by
-  refine ⟨rfl, rfl, StackRel.nil, ⟨?_, ?_, ?_, ?_, ?_, rfl⟩,
+  refine ⟨rfl, rfl, StackRel.nil, ⟨?_, ?_, ?_, ?_, ?_, ?_, rfl⟩,
     ⟨fun _ h => absurd h List.not_mem_nil, fun _ _ h => absurd h List.not_mem_nil⟩, MemRel.nil _⟩
   · exact ⟨(by decide : 0 < 160), (by decide : 160 ≤ 256), by decide +kernel⟩
   · exact ⟨(by decide : 0 < 160), (by decide : 160 ≤ 256), by decide +kernel⟩
@@ -154,6 +156,15 @@ theorem exR : R exI exEnv exCode exP initState exF0 := by
       refine ⟨(by decide : 0 < 256), rfl, ?_⟩
       simp only [T.eval]
       exact Nat.mod_eq_of_lt (push_value_lt _ _ 32 (Nat.le_refl _))
+  · intro i
+    refine ⟨(by decide : 0 < 8), rfl, ?_⟩
+    show ((exCalldata[i]?).getD 0) % 2 ^ 8 = (exCalldata[i]?).getD 0
+    have hb : ∀ b ∈ exCalldata, b < 256 := by decide
+    have : (exCalldata[i]?).getD 0 < 256 := by
+      cases hg : exCalldata[i]? with
+      | none => simp
+      | some b => simp only [Option.getD_some]; exact hb b (List.mem_of_getElem? hg)
+    exact Nat.mod_eq_of_lt (by simpa using this)
 
 /-- the INVALID end state is among the results -/
 theorem ex_end : ∃ e ∈ exRes.ends, e.tag = .normal ∧ e.out = .halt .invalidOpcode ∧
@@ -165,7 +176,7 @@ theorem ex_end : ∃ e ∈ exRes.ends, e.tag = .normal ∧ e.out = .halt .invali
 example : (∃ n, Evm.exec exP n exW exF0 = some (exW, .invalidOpcode)) ∨
     (∃ n, Evm.exec exP n exW exF0 = some (exW, .stackOverflow)) := by
   obtain ⟨e, he, htag, hout, hp⟩ := ex_end
-  refine sound_exec foldSimp_sound exOracle {} exEnv exCode 100 exP exW exMem e he htag .invalidOpcode hout exI
+  refine sound_exec foldSimp_sound exOracle {} exEnv exCode 100 exP exW exMem (by decide) e he htag .invalidOpcode hout exI
     exI_std exF0 exR ?_
   rw [hp]
   exact sat_singleton.2 (by decide +kernel)
@@ -192,7 +203,7 @@ example : (∃ n, Evm.exec exP n exW { exF0 with code := retCode } =
   obtain ⟨e, he, htag, hout, hp, hd⟩ := ret_end
   have hR : R exI exEnv retCode exP initState { exF0 with code := retCode } :=
     ⟨rfl, rfl, StackRel.nil, exR.env.congr rfl rfl rfl rfl, exR.subst, MemRel.nil _⟩
-  have := sound_exec foldSimp_sound exOracle {} exEnv retCode 100 exP exW exMem e he htag (.success []) hout exI
+  have := sound_exec foldSimp_sound exOracle {} exEnv retCode 100 exP exW exMem (by decide) e he htag (.success []) hout exI
     exI_std _ hR (by rw [hp]; exact Sat.nil _)
   have hv : haltWith (.success []) (e.data.map (·.eval exI)) = .success (List.replicate 31 0 ++ [42, 0xab]) := by
     rw [hd]; decide +kernel
@@ -201,6 +212,17 @@ example : (∃ n, Evm.exec exP n exW { exF0 with code := retCode } =
 
 example : (Evm.exec exP 20 exW { exF0 with code := retCode }).map (·.2) =
     some (.success (List.replicate 31 0 ++ [42, 0xab])) := by decide +kernel
+
+/-- CALLDATACOPY and CODECOPY: `calldatacopy(0, 0, 36); codecopy(36, 0, 4); return(0, 40)` — model and reference
+    agree on the 40 returned bytes (the calldata, then the first four code bytes) -/
+def cpCode : List Nat :=
+  [0x60, 36, 0x60, 0, 0x60, 0, 0x37, 0x60, 4, 0x60, 0, 0x60, 36, 0x39, 0x60, 40, 0x60, 0, 0xf3]
+
+example : (run foldSimp exOracle {} exEnv cpCode 100).ends.map (fun e => (e.out, e.tag, e.data.map (·.eval exI))) =
+      [(.halt (.success []), .normal, exCalldata ++ [0x60, 36, 0x60, 0])] ∧
+    (Evm.exec exP 20 exW { exF0 with code := cpCode }).map (·.2) =
+      some (.success (exCalldata ++ [0x60, 36, 0x60, 0])) := by
+  decide +kernel
 
 /-- a write beyond `MAX_MEMORY_SIZE` ends the path with the tagged OutOfGas (`PUSH1 0; PUSH3 0x100001; MSTORE`) -/
 example : (run foldSimp exOracle {} exEnv [0x60, 0, 0x62, 0x10, 0x00, 0x01, 0x52, 0x00] 100).ends.map
